@@ -529,6 +529,54 @@ def restore_gen():
     return done
 
 
+# --------------------------------------------------------------------------- anchor drift (DESIGN 3.3)
+# harness/cmd/anchors digests the comment-stripped, position-free AST of every Go function a model section mirrors
+# (checks/anchors.json: file, functions, owning properties).  checks/anchors.lock.json holds the digests of the pinned tree
+# (python3 checks/mkanchors.py).  When a function owned by property X differs from the lock, X's check runs with an
+# ESCALATED correspondence budget (run.escalate, a factor) and records run.anchor_drift in its evidence.  A drift is NEVER an
+# alarm by itself, and a failure of this machinery is a note, not a violation.
+
+ANCHOR_MAP = os.path.join(VERIF, "checks", "anchors.json")
+ANCHOR_LOCK = os.path.join(VERIF, "checks", "anchors.lock.json")
+ESCALATE = 4
+
+
+def anchor_digests():
+    """{key: {"digest", "props"}} for VERIF_REPO, or (None, why)."""
+    okb, log = go_build(["anchors"])
+    if not okb:
+        return None, "anchors tool does not build: " + log[-300:]
+    rc, out = sh([os.path.join(BIN, "anchors"), "-repo", REPO, "-map", ANCHOR_MAP], timeout=120)
+    if rc != 0:
+        return None, "anchors tool failed: " + out[-300:]
+    try:
+        return json.loads(out), ""
+    except ValueError as e:
+        return None, "anchors tool output unreadable: %r" % e
+
+
+def anchor_drift(pid):
+    """Names (file::function) owned by property pid whose digest differs from the lock (changed, new or gone).
+    Returns (list, note)."""
+    if not os.path.exists(ANCHOR_LOCK):
+        return [], "no checks/anchors.lock.json"
+    cur, why = anchor_digests()
+    if cur is None:
+        return [], why
+    try:
+        lock = json.load(open(ANCHOR_LOCK)).get("digests", {})
+    except (OSError, ValueError) as e:
+        return [], "lock unreadable: %r" % e
+    drift = []
+    for k, v in cur.items():
+        if pid in v.get("props", []) and lock.get(k, {}).get("digest") != v["digest"]:
+            drift.append(k + (" (new)" if k not in lock else " (absent)" if v["digest"] == "absent" else ""))
+    for k, v in lock.items():
+        if pid in v.get("props", []) and k not in cur:
+            drift.append(k + " (gone)")
+    return sorted(drift), ""
+
+
 # --------------------------------------------------------------------------- findings / reporting
 
 def known_findings():
@@ -559,6 +607,25 @@ class Run:
         self.assumptions = []
         self.notes = []
         self.findings = [f for f in known_findings() if f["property"] == pid and f["kind"] == "finding"]
+        # anchor drift: set by detect_drift() (called by ./check); a check scales its correspondence budget with
+        # run.escalate (1 = the functions the property's model mirrors are those of the pinned tree)
+        self.anchor_drift = []
+        self.escalate = 1
+
+    def detect_drift(self):
+        try:
+            self.anchor_drift, note = anchor_drift(self.pid)
+        except Exception as e:          # never an alarm
+            self.anchor_drift, note = [], "anchor drift detection crashed: %r" % e
+        if note:
+            self.notes.append("anchor drift not evaluated: " + note)
+        forced = os.environ.get("VERIF_ESCALATE")
+        self.escalate = int(forced) if forced and forced.isdigit() and int(forced) >= 1 else (ESCALATE if self.anchor_drift else 1)
+        return self.escalate
+
+    def scaled(self, n):
+        """A correspondence budget (number of random cases / scenarios) under the current escalation."""
+        return int(n) * self.escalate
 
     def replay_path(self, tag):
         d = os.path.join(VERIF, "replays")
@@ -589,6 +656,8 @@ class Run:
         }
         if self.notes:
             ev["coverage"]["notes"] = self.notes
+        ev["coverage"]["anchor_drift"] = self.anchor_drift
+        ev["coverage"]["budget_escalation_factor"] = self.escalate
         ev["coverage"]["known_findings_printed"] = [k for k, _ in self.known_hits]
         ev["coverage"]["violation_keys"] = [v[0] for v in self.violations]
         os.makedirs(os.path.join(VERIF, "evidence"), exist_ok=True)
